@@ -6,6 +6,8 @@ package main
 import (
 	"bytes"
 	"fmt"
+	"github.com/cosmos/cosmos-proto/anyutil"
+	"google.golang.org/protobuf/types/known/anypb"
 	"reflect"
 	"strings"
 
@@ -168,6 +170,19 @@ func (c *nrCtx) readsAsEmpty(what string, m, ref protoreflect.Message, wantValid
 				panic("VIOLATION " + err.Error())
 			}
 		}},
+		{"anyutil.New/MarshalFrom", func() {
+			// packing helpers accept the value exactly as the reference packer (anypb) does
+			ra, rerr := anypb.New(pm)
+			a, err := anyutil.New(pm)
+			d2 := &anypb.Any{}
+			err2 := anyutil.MarshalFrom(d2, pm, proto.MarshalOptions{Deterministic: true})
+			if (err == nil) != (rerr == nil) || (err2 == nil) != (rerr == nil) {
+				panic(fmt.Sprintf("VIOLATION anyutil.New err=%v, MarshalFrom err=%v, reference anypb.New err=%v", err, err2, rerr))
+			}
+			if rerr == nil && (!bytes.Equal(a.GetValue(), ra.GetValue()) || !bytes.Equal(d2.GetValue(), ra.GetValue()) || a.GetTypeUrl() != "/"+string(pm.ProtoReflect().Descriptor().FullName())) {
+				panic(fmt.Sprintf("VIOLATION anyutil.New -> %q %x, reference value %x", a.GetTypeUrl(), a.GetValue(), ra.GetValue()))
+			}
+		}},
 	}
 	for _, l := range libs {
 		pan, pmsg = safely(l.f)
@@ -229,8 +244,15 @@ func (c *nrCtx) writesPanic(what string, m protoreflect.Message) {
 func engineNilRead(rep *Report) {
 	subs := subjectsForShard()
 	for _, s := range subs {
+		s := s
+		rep.Types = append(rep.Types, string(s.FullName))
+		guardCase(rep, "C09", "nilread", string(s.FullName), 0, func() { nilReadType(rep, s) })
+	}
+}
+
+func nilReadType(rep *Report, s *glue.Subject) {
+	{
 		tn := string(s.FullName)
-		rep.Types = append(rep.Types, tn)
 		c := &nrCtx{rep: rep, tn: tn}
 		d := s.Zero.ProtoReflect().Descriptor()
 		dynZero := dynamicpb.NewMessageType(d).Zero()
@@ -243,7 +265,7 @@ func engineNilRead(rep *Report) {
 		pan, pmsg := safely(func() { m = nilPtr.ProtoReflect() })
 		if pan {
 			c.bad("protoreflect-panic", "(*T)(nil)", pmsg)
-			continue
+			return
 		}
 		c.readsAsEmpty("(*T)(nil)", m, dynZero, false, 0)
 		c.writesPanic("(*T)(nil)", m)
